@@ -267,27 +267,27 @@ def _property_file_info(pid):
     return {"ok": rc == 0, "theorems": theorems, "examples": examples, "closed": closed,
             "axioms": axioms, "log": out[-4000:]}
 
-def store_clause_info(facts_file):
+def store_clause_info(facts_file, model_file="ConcStore"):
     """the interleaving model of the component store (coq/ConcStore.v, Properties/ConcStore.v) and the regenerated facts that
     tie it to the code (Properties/<facts_file>.v over GenStore.v): -> (info for merge_evidence, tie string or None)"""
     with Lock("build"):
         run_translator()
-        coq_make(["Properties/ConcStore.vo", "Properties/%s.vo" % facts_file])
-        a = _property_file_info("ConcStore")
+        coq_make(["Properties/%s.vo" % model_file, "Properties/%s.vo" % facts_file])
+        a = _property_file_info(model_file)
         b = _property_file_info(facts_file)
     info = {"ok": a["ok"] and b["ok"], "theorems": a["theorems"] + b["theorems"], "examples": a.get("examples", []) + b.get("examples", []),
             "closed": a.get("closed", 0) + b.get("closed", 0), "axioms": sorted(set(a.get("axioms", [])) | set(b.get("axioms", [])))}
     tie = None
     if not a["ok"]:
-        tie = "coq/Properties/ConcStore.v no longer checks: " + a["log"][-300:]
+        tie = "coq/Properties/%s.v no longer checks: " % model_file + a["log"][-300:]
     elif not b["ok"]:
         gen = ""
         try: gen = open(os.path.join(COQ, "GenStore.v")).read()
         except OSError: pass
         false = re.findall(r"Definition (\w+) : bool := false", gen)
         notes = re.findall(r"\(\* note: (.*?) \*\)", gen)
-        tie = ("obligation Properties/%s.v over the regenerated GenStore.v no longer checks (%s): the critical sections of EntityComponentStore are no longer the atomic "
-               "instructions the theorems of Properties/ConcStore.v are about%s" % (facts_file, ", ".join(false) or "see log", ("; " + "; ".join(notes)) if notes else ""))
+        tie = ("obligation Properties/%s.v over the regenerated GenStore.v no longer checks (%s): the critical sections of the code are no longer the "
+               "instructions the theorems of Properties/%s.v are about%s" % (facts_file, ", ".join(false) or "see log", model_file, ("; " + "; ".join(notes)) if notes else ""))
     return info, tie
 
 # ---------------------------------------------------------------- evidence / verdict
